@@ -63,3 +63,44 @@ Theorem C01_gather_scatter_adjoint :
   add (dot A a0 add mul acc dx) (dot A a0 add mul g (gather A a0 src dx)).
 Proof. exact gather_scatter_adjoint. Qed.
 Print Assumptions C01_gather_scatter_adjoint.
+
+(* (6) The faithful history-level model (Model/GraphP.v, the one the correspondence check runs against /repo):
+   at every state reached along a well-formed history, a backward() that returns normally leaves in the stored
+   gradients of the tensors it listed exactly the adjoint of the graph as the code sees it, and the gradient
+   of every other tensor is untouched ("tensors L does not depend on receive no contribution"). *)
+From MG Require Import Model.GraphP Proofs.EngineP Proofs.ClearP.
+Theorem C01_backward_adjoint : forall (h1 h2 : list stmt) (t : nat) (seed : option zvec) (st' : gstate),
+  hist_ok g_init (h1 ++ h2) = true ->
+  let st := fst (run_hist g_init h1) in
+  t < length (g_vals st) -> n_const st t = false -> do_backward st t seed = (st', Ok) ->
+  let P := g_eff st in
+  let order := order_of st t in
+  let s := match seed with Some g => g | None => repeat 1%Z (length (nth t (g_vals st) [])) end in
+  exists G : list zvec,
+    (forall k, In k order -> grad_vec st' k = nth k G []) /\
+    (forall k, ~ In k order -> nth k G [] = [] /\ nth k (g_grad st') None = nth k (g_grad st) None) /\
+    (forall delta : nat -> zvec,
+       leaf_sum Z 0%Z Z.add Z.mul delta 0 P G = dot Z 0%Z Z.add Z.mul s (nth t (tangents Z Z.add delta P) [])).
+Proof. exact backward_adjoint_reachable. Qed.
+Print Assumptions C01_backward_adjoint.
+
+(* (7) on a graph that was only built (no clearing yet) backward never raises InvalidBackprop *)
+Theorem C01_fresh_graph_no_error : forall h t seed, Forall build_stmt h ->
+  snd (do_backward (fst (run_hist g_init h)) t seed) <> InvalidBackprop.
+Proof. exact built_graph_no_error. Qed.
+Print Assumptions C01_fresh_graph_no_error.
+
+(* non-vacuity: a diamond with a repeated operand and a broadcast: x:(2), y = x*x (KMul, x twice), b = broadcast of y
+   to 4 elements, L = sum(b + b'), all hypotheses hold and the gradient is 2*x*(number of uses) *)
+Definition nv_hist : list stmt :=
+  [SLeaf false [3; -2]%Z;
+   SApp None false (Build_cop Z 2 [Build_carg 0 [0; 1]; Build_carg 0 [0; 1]] (KMul Z) None);
+   SApp None true  (Build_cop Z 4 [Build_carg 1 [0; 1; 0; 1]] (KLin Z [[1; 1; 1; 1]%Z] [0; 0; 0; 0]%Z) None);
+   SApp None false (Build_cop Z 4 [Build_carg 2 [0; 1; 2; 3]; Build_carg 1 [0; 1; 0; 1]]
+                               (KLin Z [[1; 1; 1; 1]%Z; [1; 1; 1; 1]%Z] [0; 0; 0; 0]%Z) (Some (1, [0; 0; 0; 0])));
+   SBackward 3 None].
+Example C01_nonvacuous :
+  hist_ok g_init nv_hist = true /\
+  snd (run_hist g_init nv_hist) = [Ok; Ok; Ok; Ok; Ok] /\
+  g_grad (fst (run_hist g_init nv_hist)) = [Some [24; -16]%Z; Some [4; 4]%Z; Some [1; 1; 1; 1]%Z; Some [1]%Z].
+Proof. vm_compute. repeat split; reflexivity. Qed.
